@@ -382,7 +382,7 @@ pub fn decode(target: &str, data: &[u8]) -> Vec<(&'static str, Value)> {
                 vec![("C17", serde_json::to_value(c17::Case { method, sets, table, seed: u64::from(r.u32()), shift: [0.0f32, 0.5, 2.0][r.below(3)] }).unwrap())]
             }
             _ => {
-                let all: Vec<u32> = if r.bool() { (1..=c06::N_LEAVES).collect() } else { (1..=c06::N_LEAVES).chain(501..=520).chain([c06::ROOT]).collect() };
+                let all: Vec<u32> = if r.bool() { c06::leaf_ids() } else { c06::all_term_ids() };
                 let n_bg = 1 + r.below(4) * 100 + r.below(100);
                 let start = r.u16() as usize % all.len();
                 let step = [1usize, 3, 7, 11][r.below(4)];
